@@ -1,6 +1,7 @@
 (* C12 — JSON encoding of expressions round-trips.  (leaf level and totality; see DESIGN 6/C12) *)
 Require Import Parser Render Decode Shape.
 Require Import RenderTotal RenderMarshal RenderNum DecodeLeaf TablesTie Cst Inferable JsonRoundTripB.
+Require Api Lex ParserShape2.
 From Coq Require Import List String Ascii ZArith.
 
 (* MarshalJSON returns (bytes or an error) on every tree whatsoever *)
@@ -43,6 +44,25 @@ Proof. exact to_string_tie. Qed.
 Theorem C12_decoder_uses_from_string : forall s, op_of_string s = match assoc_str s from_string with Some op => op | None => Undefined end.
 Proof. exact op_of_string_tie. Qed.
 
+
+(* the property in its own words, for every expression Parse returns whose leaves have the kind the decoder infers: decoding the
+   encoder's output succeeds and gives an expression that validates, re-encodes to the same bytes, prints identically (String and
+   %#v), renders identical inline and parameterized SQL - because it IS the original expression (deep equality). Composition of the
+   round-trip theorem with C10 (a Parse result validates). Same three hypotheses on encoding/json, strconv and the boundary
+   heuristic as above. *)
+Theorem C12_parse_result_round_trips_with_all_observables : forall (o : oracle) (o2 : oracle2) (cl : Lex.classes),
+  (forall s, exists r, json_str o2 s = String """"%char r) -> (forall r, parse_float o (String """"%char r) = None) ->
+  (forall v, looks_like_boundary (cst_v o2 v) = is_bound v) ->
+  forall (df s : string) (e : expr), Api.parse o cl df s = PTree e -> ki_b o o2 e = true ->
+  exists d : expr, decode o (cst_e o2 e) = DOk d /\ d = e /\ validate d = true /\
+    marshal_e o2 d = marshal_e o2 e /\ str_e o2 false d = str_e o2 false e /\ str_e o2 true d = str_e o2 true e /\
+    render o2 d = render o2 e /\ render_param o2 d = render_param o2 e.
+Proof.
+  intros o o2 cl H1 H2 H3 df s e P K. exists e.
+  split; [exact (inferable_roundtrip o o2 H1 H2 H3 e K)|]. split; [reflexivity|].
+  split; [exact (proj2 (ParserShape2.parse_wf o df (Api.lex_tokens cl s) e P))|]. repeat split; reflexivity.
+Qed.
+
 Print Assumptions C12_encode_returns.
 Print Assumptions C12_decode_encode_roundtrip.
 Print Assumptions C12_operator_names_roundtrip.
@@ -51,3 +71,4 @@ Print Assumptions C12_decoder_uses_from_string.
 Print Assumptions C12_atoi_itoa.
 Print Assumptions C12_int_leaf_roundtrip.
 Print Assumptions C12_string_leaf_roundtrip.
+Print Assumptions C12_parse_result_round_trips_with_all_observables.
